@@ -7,4 +7,29 @@ func propC11(r *Report, tier string) {
 	r.NotCovered = "data races on fields outside the guarded-by tables, absence of panics, real deadlock freedom for all schedules, goroutine leaks inside third-party stores"
 	k1Locks(r, "K1-lock-pairing", nil)
 	r.Floor("K1-lock-pairing", 100)
+	ruleNoReentrantLocking(r, "K3-no-reentrant-locking")
+	ruleAPIOpenCheck(r, "K7-api-open-check")
+	ruleAliasOpenCheck(r, "K7-alias-open-check")
+	ruleScorchRootLockTable(r, "K2-rootLock-guarded-by")
+	ruleScorchChannelDiscipline(r, "K4-channel-discipline")
+	ruleLoopLifecycle(r, "K5-loop-lifecycle")
+	ruleCancellationPolled(r, "K5-cancellation")
+}
+
+func ruleScorchRootLockTable(r *Report, rule string) {
+	table := []guardedField{
+		{"Scorch", "root", "rootLock"},
+		{"Scorch", "rootPersisted", "rootLock"},
+		{"Scorch", "persistedCallbacks", "rootLock"},
+		{"Scorch", "nextSnapshotEpoch", "rootLock"},
+		{"Scorch", "eligibleForRemoval", "rootLock"},
+		{"Scorch", "ineligibleForRemoval", "rootLock"},
+		{"Scorch", "copyScheduled", "rootLock"},
+	}
+	exempt := map[string]string{
+		"index/scorch.NewScorch":               "constructor: the object is not yet shared",
+		"index/scorch.(*Scorch).openBolt":      "open phase: runs before any background loop is started (C03 K5-open-phase) and before the handle is returned",
+		"index/scorch.(*Scorch).UpdateFields":  "index-update open path (OpenMeta): no background loop is running; called once from openIndexUsing before Open",
+	}
+	ruleGuardedBy(r, rule, scorchPkg, table, exempt)
 }
